@@ -125,6 +125,7 @@ func cdatemd(t int64) string {
 // judgePost evaluates the property on what the implementation did with one request; returns the histogram label.
 func judgePost(i int, q0 *request, o *observed, name string) string {
 	q := o.reqCopy // as submitted
+	q.sess = q0.sess
 	role := "plain"
 	if q.u.sysop {
 		role = "sysop"
@@ -287,7 +288,11 @@ func judgePost(i int, q0 *request, o *observed, name string) string {
 		wantNp = o.npBefore
 	}
 	if o.npAfter != wantNp {
-		fail("numposts", fmt.Sprintf("NumPosts %d -> %d, expected %d", o.npBefore, o.npAfter, wantNp))
+		via := "a freshly loaded record"
+		if q.sess != nil {
+			via = fmt.Sprintf("a record loaded earlier (the caller's copy said %d before the call)", o.callerNpBefore)
+		}
+		fail("numposts", fmt.Sprintf("stored NumPosts %d -> %d, expected %d; posted through %s", o.npBefore, o.npAfter, wantNp, via))
 	}
 
 	// --- the article file
